@@ -1166,6 +1166,13 @@ class H2Connection:
         if origin is None and stream_id is None:
             raise ValueError("Must provide one of origin or stream_id")
 
+        # The connection state machine cannot tell on a connection that is
+        # still idle: only servers advertise alternative services.
+        if self.config.client_side:
+            raise ProtocolError(
+                "Clients cannot advertise alternative services"
+            )
+
         self.state_machine.process_input(
             ConnectionInputs.SEND_ALTERNATIVE_SERVICE
         )
